@@ -60,6 +60,9 @@ func runNode(focus string) func(s *simrt.Sim) {
 		if focus == "C08" {
 			nconn = 1
 		}
+		if focus == "C54" && e.faults {
+			nconn = 3 // a client that goes away and others that carry on concurrently
+		}
 		e.conf = e.genConf(nconn)
 		var modules []string
 		switch focus {
@@ -79,6 +82,9 @@ func runNode(focus string) func(s *simrt.Sim) {
 		case "C54":
 			e.accEnc = true
 			e.abort = true
+			for _, cl := range e.conf.Clusters {
+				cl.CancelOnClose = cl.CancelOnClose || tp.Chance(1, 2, "c54.cancel_on_close")
+			}
 			modules = []string{"mod_compress"}
 			e.conf.Compress = []string{"GZIP", "BROTLI"}[tp.Draw(2, "compress_cmd")]
 			e.conf.CompressQ = 1 + tp.Draw(9, "compress_q")
